@@ -75,7 +75,7 @@ def instances(tier, seed):
     out = []
     for s in range(0, 7):
         out.append({'id': f'binary_search:div=2^-{s}', 'what': 'bs', 's': s})
-    nets = [('C', {}), ('L', {}), ('C', {'big_bias': True}), ('L', {'big_bias': True}), ('F', {})]
+    nets = [('C', {}), ('L', {}), ('C', {'big_bias': True}), ('L', {'big_bias': True}), ('F', {}), ('C', {'big_bias': 'neg'}), ('L', {'big_bias': 'neg'})]
     bits = [8, 4] if tier == 'quick' else [8, 4, 2]
     for be in ('MATCH', 'MAUPITI'):
         for net, kw in nets:
@@ -115,7 +115,8 @@ def _export(net, kw, bits, opts, wseed=0):
             vals = rng.randint(-8, 9, size=p.numel()).astype('float32') / 8
             vals[vals == 0] = 0.125
             if n.endswith('bias') and getattr(model, 'big_bias', False):
-                vals = np.array([9.0, 0.125, 30.0, -0.25][:p.numel()] + [0.5] * max(0, p.numel() - 4), dtype='float32')
+                big = [-30.0, 0.125, -9.0, 0.25] if model.big_bias == 'neg' else [9.0, 0.125, 30.0, -0.25]       # 'neg': only negative biases are large
+                vals = np.array(big[:p.numel()] + [0.5] * max(0, p.numel() - 4), dtype='float32')
             p.copy_(torch.tensor(vals).reshape(p.shape))
     shape = (3,) if net == 'L' else (1, 3, 3)
     qinfo = get_default_qinfo((bits,), (bits,))
